@@ -223,6 +223,11 @@ def task(args):
             k = hostile.NEST_KINDS[idx]
             for d in depths:
                 drv.drive(hostile.nested(k, d), "nest:%s:%d" % (k, d), cli=(d in (16, 64)))
+            # the same nests with a non-expression at the innermost position or cut off there (every level fails to parse)
+            for d in [x for x in depths if x in (8, 12, 16, 32, 64)] or [12]:
+                for how, text in hostile.nested_broken(k, d):
+                    drv.drive(text, "broken-nest:%s:%s:%d" % (k, how, d), cli=False)
+                    res.count("broken-nests")
             res.sample({"label": "nest:" + k, "text": hostile.nested(k, 5)})
         elif kind == "corpus":
             _, seed, idx, nshards, per_file = args
